@@ -15,7 +15,7 @@ CHECKS: dict[str, tuple[str, str, str, str]] = {
         " exit status 0 iff compliant on all output paths, the per-result effect table of"
         " ProjectReport.generate, the files_without_* filters and the all-sources construction of the"
         " per-file fields. This is a necessary condition of the behavioural property, decided for all"
-        " paths; it is not a proof that extraction/coverage underneath is right for every tree. Also shares C03's decision table of is_path_ignored (which files are covered at all). The LicenseRef- language equals LicenseRef-[A-Za-z0-9.-]+ (regular-language equality, shared with C06).",
+        " paths; it is not a proof that extraction/coverage underneath is right for every tree. Also shares C03's decision table of is_path_ignored (which files are covered at all). The LicenseRef- language equals LicenseRef-[A-Za-z0-9.-]+ (regular-language equality, shared with C06). The precedence table of Project.reuse_info_of (what is attributed to a file) is shared with C04.",
         "Trusted: CPython ast, the tabulator (sa/tab.py). Not decided: lower layers (C02-C06).",
         "DESIGN.md §3 C01",
     ),
@@ -27,7 +27,7 @@ CHECKS: dict[str, tuple[str, str, str, str]] = {
         " prunes/yields accordingly, that every call chain enumerating files forwards the include flags, the"
         " VCS strategy and the subset unchanged, and that VCS readers' flags and separators agree. Necessary"
         " structural conditions decided for all paths/names; Git's own ignore answer is an external run-time"
-        " oracle and is not decided. VCS membership tests (is_ignored / is_submodule of every strategy) compare paths of the same base (units-of-measure check: query made root-relative, collected sets root-relative); the report's file list is subset_files(F) whenever F was given, even empty.",
+        " oracle and is not decided. VCS membership tests (is_ignored / is_submodule of every strategy) compare paths of the same base (units-of-measure check: query made root-relative, collected sets root-relative); the report's file list is subset_files(F) whenever F was given, even empty. Paths printed by VCS commands keep their exact spelling (no whitespace strip).",
         "Trusted: CPython ast, re._parser, sa/relang.py, sa/tab.py, sa/fold.py. Names exclude '/', NUL, CR, LF.",
         "DESIGN.md §3 C03",
     ),
@@ -106,7 +106,7 @@ CHECKS: dict[str, tuple[str, str, str, str]] = {
         " Project.license_map into it and compares with `bad iff neither SPDX nor LicenseRef-` over all cells, the"
         " used/unused comprehensions as boolean formulas, the LICENSES/** scan table (skip, no-extension, stem fallback,"
         " duplicate, register), the LicenseRef- language (DFA equivalence, identifiers of any length), and absence of"
-        " case folding on the lint path. license_expression's license_keys (library) is not decided.",
+        " case folding on the lint path. license_expression's license_keys (library) is not decided. LICENSES/ entries: bad iff not in the licence map, deprecated iff the map marks it - independent of any other attribute of the entry.",
         "Trusted: ast, sa/tab.py, sa/relang.py, sa/fold.py. Deprecated/bad classification of LICENSES/ entries is in C01-R3.",
         "DESIGN.md §3 C06",
     ),
@@ -118,7 +118,7 @@ CHECKS: dict[str, tuple[str, str, str, str]] = {
         " JSON lists; the plain verdict sentence follows is_compliant; ProjectSubsetReport's verdict, filters and"
         " propagation agree with ProjectReport's on the four shared categories and with what format_lines_subset"
         " prints; lint-file exits 0 iff compliant on every path and rejects outside files before generating."
-        " Textual equality of rendered paths is not decided. The subset report examines subset_files(F) whenever F was given (an empty F is not 'no subset'). Nothing is carried from one examined file to the next (task purity shared with C14).",
+        " Textual equality of rendered paths is not decided. The subset report examines subset_files(F) whenever F was given (an empty F is not 'no subset'). Nothing is carried from one examined file to the next (task purity shared with C14). A rendering loop does not range over a re-keyed dictionary that can collapse (identifier, file) pairs.",
         "Trusted: ast, sa/tab.py.",
         "DESIGN.md §3 C13",
     ),
@@ -129,7 +129,7 @@ CHECKS: dict[str, tuple[str, str, str, str]] = {
         " wrapping and the LicenseRef section; that the checksum is hashlib.sha1 over every chunk of the file opened"
         " in binary mode and is never disabled by the spdx command; that SPDXID derives from name and checksum; the"
         " LicenseConcluded table (NOASSERTION / NONE / AND of parenthesised expressions, simplified) and the creator"
-        " requirement. SHA-1 values and boolean.py's simplify() are library semantics and not decided.",
+        " requirement. SHA-1 values and boolean.py's simplify() are library semantics and not decided. The covered-file set (ignore-name languages and the is_path_ignored table) is shared with C03.",
         "Trusted: ast, sa/tab.py. The file set is decided by C01/C03.",
         "DESIGN.md §3 C18",
     ),
@@ -152,7 +152,7 @@ CHECKS: dict[str, tuple[str, str, str, str]] = {
         " effect at all and return a non-zero result; skipped files have no effect; per-file results are accumulated"
         " with no early exit and the command exits min(sum, 1); every usage-error pre-flight precedes the loop, raises"
         " click.UsageError and has no effects; every option of a mutex table is declared MutexOption with that"
-        " table; the anticipated failures (unsupported form, premature terminator) are raised. Every path of _create_new_header that returns a header has evaluated the post-render check (shared with C07-R1; the recorded `and` defect is a known finding here too). The multi-line writer's refusal table; error handlers apply str.format to constant format strings only.",
+        " table; the anticipated failures (unsupported form, premature terminator) are raised. Every path of _create_new_header that returns a header has evaluated the post-render check (shared with C07-R1; the recorded `and` defect is a known finding here too). The multi-line writer's refusal table; error handlers apply str.format to constant format strings only. The pre-flight predicates has_style / is_uncommentable are defined through get_comment_style.",
         "Trusted: ast, sa/tab.py, syntactic table of file-system mutators. OS failures of the final write are out of scope.",
         "DESIGN.md §3 C11",
     ),
@@ -184,7 +184,7 @@ CHECKS: dict[str, tuple[str, str, str, str]] = {
         " header raises instead of being dropped, that ReuseInfo.union covers every set field, copy preserves"
         " unspecified fields, the helper predicates equal their formulas, every .copy() call names only dataclass"
         " fields, --skip-existing has no effect, and the post-render check (shared with C07). Monotonicity over"
-        " arbitrary histories of header shapes is not decided.",
+        " arbitrary histories of header shapes is not decided. Template environments write re-rendered information verbatim (shared with C07).",
         "Trusted: ast, sa/tab.py.",
         "DESIGN.md §3 C09",
     ),
@@ -198,7 +198,7 @@ CHECKS: dict[str, tuple[str, str, str, str]] = {
         " VCS query; an effect inside a helper whose target is the helper's own parameter is lifted through every call"
         " site; download's refusal of an existing destination dominates every write (table shared with C19); the written paths derive from the named files / covered children / their .license siblings. This"
         " decides 'which code can touch the tree' for all inputs; OS-level metadata effects and the explicitly named"
-        " symlink case are not decided.",
+        " symlink case are not decided. The project root reported by the VCS is used verbatim.",
         "Trusted: ast, mypy's resolution, table T1, the read-only VCS query whitelist. Unresolved calls are listed in the evidence (floor 25).",
         "DESIGN.md §3 C15",
     ),
@@ -209,7 +209,7 @@ CHECKS: dict[str, tuple[str, str, str, str]] = {
         " lie within what click turns into a diagnostic; each other pair is a violation unless it is one of nine named,"
         " reasoned infeasible origins whose side conditions are checked. Plus: parsed TOML values are type-checked"
         " before being iterated/indexed, the per-file isolation handler is as broad as Exception, parse errors carry"
-        " or receive the file name. OS faults outside the modelled exceptions are not decided. Bytes are decoded with an error mode whose result can be encoded again (no surrogateescape / surrogatepass). str.format is applied to constant format strings only; ordering values whose element type is Any counts as a TypeError source.",
+        " or receive the file name. OS faults outside the modelled exceptions are not decided. Bytes are decoded with an error mode whose result can be encoded again (no surrogateescape / surrogatepass). str.format is applied to constant format strings only; ordering values whose element type is Any counts as a TypeError source. Presence of a TOML key is decided by `is None`, never by truthiness; set() over raw converter parameters and constant indices into split text are exception sources (T2).",
         "Trusted: ast, mypy's resolution and MROs, table T2. Known findings are keyed by exception and origin construct.",
         "DESIGN.md §3 C16",
     ),
@@ -220,7 +220,7 @@ CHECKS: dict[str, tuple[str, str, str, str]] = {
         " the three template arguments are sorted (so identical arguments give identical headers under any hash seed);"
         " that for none of the 29 folded comment styles the multi-line opener starts with the single-line marker while"
         " single-line detection runs first (the tool must find the header it wrote); that the comment writer and the"
-        " block finder agree; and the no-separator cell of place_header. Byte identity for all bodies is not decided. The year range annotate writes is already in the merger's canonical form (get_year table shared with C20).",
+        " block finder agree; and the no-separator cell of place_header. Byte identity for all bodies is not decided. The year range annotate writes is already in the merger's canonical form (get_year table shared with C20). place_header receives bool(header) as the existing-header flag (shared with C08).",
         "Trusted: ast, mypy types, sa/taint.py, sa/fold.py, sa/tab.py, canonisers of table T3.",
         "DESIGN.md §3 C10",
     ),
@@ -235,7 +235,7 @@ CHECKS: dict[str, tuple[str, str, str, str]] = {
         " (_MultiprocessingContainer.__call__) is applied to an object the task created itself (freshness analysis with"
         " return summaries; two named exceptions for the lazy dep5 memo), so no state is carried from one file to the"
         " next. Listing order of output is deliberately not a sink. Independence of cwd and of"
-        " the spelling of --root depends on run-time path arithmetic and is not decided. Glob patterns built from run-time paths escape them; sorted() with a key that can tie over a set is an order hazard.",
+        " the spelling of --root depends on run-time path arithmetic and is not decided. Glob patterns built from run-time paths escape them; sorted() with a key that can tie over a set is an order hazard. VCS membership tests compare paths of the same base and VCS output keeps its spelling (shared with C03).",
         "Trusted: ast, mypy types/callees, table T3 (sorted, list.sort, boolean.py simplify sorts operands).",
         "DESIGN.md §3 C14",
     ),
